@@ -120,6 +120,10 @@ func (p *Program) atomName(v ssa.Value, depth int) string {
 		return "phi:" + x.Comment
 	case *ssa.FreeVar:
 		return "var:" + x.Name()
+	case *ssa.Slice:
+		if depth < 6 {
+			return "slice(" + p.atomName(x.X, depth+1) + ")"
+		}
 	}
 	return "val:" + v.Name()
 }
